@@ -2082,7 +2082,13 @@ static int dfs_copy(vnaproperty_t **destination, const vnaproperty_t *source)
 		free((void *)key);
 		return -1;
 	    }
+	    errno = 0;
 	    new_source = vnaproperty_get_subtree(source, "%s", key);
+	    if (new_source == NULL && errno != 0) {
+		free((void *)keys);
+		free((void *)key);
+		return -1;
+	    }
 	    if (dfs_copy(new_destination, new_source) == -1) {
 		free((void *)keys);
 		free((void *)key);
@@ -2097,7 +2103,9 @@ static int dfs_copy(vnaproperty_t **destination, const vnaproperty_t *source)
 	if (vnaproperty_set_subtree(destination, "[]") == NULL) {
 	    return -1;
 	}
-	count = vnaproperty_count(source, ".");
+	if ((count = vnaproperty_count(source, ".")) == -1) {
+	    return -1;
+	}
 	for (int i = 0; i < count; ++i) {
 	    vnaproperty_t **new_destination, *new_source;
 
@@ -2105,7 +2113,11 @@ static int dfs_copy(vnaproperty_t **destination, const vnaproperty_t *source)
 	    if (new_destination == NULL) {
 		return -1;
 	    }
+	    errno = 0;
 	    new_source = vnaproperty_get_subtree(source, "[%d]", i);
+	    if (new_source == NULL && errno != 0) {
+		return -1;
+	    }
 	    if (dfs_copy(new_destination, new_source) == -1) {
 		return -1;
 	    }
@@ -2125,7 +2137,9 @@ static int dfs_copy(vnaproperty_t **destination, const vnaproperty_t *source)
  */
 int vnaproperty_copy(vnaproperty_t **destination, const vnaproperty_t *source)
 {
-    (void)vnaproperty_delete(destination, ".");
+    if (vnaproperty_delete(destination, ".") == -1) {
+	return -1;
+    }
     return dfs_copy(destination, source);
 }
 
